@@ -583,7 +583,7 @@ class _Expr(SymEval):
                 return [x.item() for x in np.nditer(args[0])]
             if f.attr == "full" and len(args) >= 2 and isinstance(args[1], (int, float)) and not isinstance(args[1], bool):
                 return np.full(args[0], float(args[1]) if kw.get("dtype") in (None, float) else args[1])
-            PURE_NUMERIC = ("tril_indices", "triu_indices", "argsort", "sort", "unique", "arange", "cumsum", "where", "sum", "max", "min", "amax", "amin", "abs", "absolute", "sqrt", "prod", "any", "all", "nonzero", "argmax", "argmin", "diff", "lexsort", "searchsorted", "count_nonzero", "sign", "floor", "ceil", "ravel_multi_index", "unravel_index", "exp", "log")
+            PURE_NUMERIC = ("tril_indices", "triu_indices", "argsort", "sort", "unique", "arange", "cumsum", "where", "sum", "max", "min", "amax", "amin", "abs", "absolute", "sqrt", "prod", "any", "all", "nonzero", "argmax", "argmin", "diff", "lexsort", "searchsorted", "count_nonzero", "sign", "floor", "ceil", "ravel_multi_index", "unravel_index", "exp", "log", "result_type", "promote_types")
             if f.attr in ("argsort", "sort") and args and isinstance(args[0], np.ndarray) and args[0].dtype != object and args[0].ndim == 1 and kw.get("kind") not in ("stable", "mergesort") and len(np.unique(args[0])) < args[0].size:
                 # an unstable sort leaves the order of equal keys open: the model takes the legal outcome that differs
                 # from the stable one (equal keys in reverse order of appearance), so that code which relies on the
